@@ -107,6 +107,29 @@ func loadRepoWith(overlay map[string][]byte) (*Repo, error) {
 			}
 		}
 	}
+	// a baseline function of a driver package that is gone, while exactly one new function of that package has its name
+	have := map[string]bool{}
+	for fn := range r.Decls {
+		have[rawFuncKey(fn)] = true
+	}
+	for bk := range baselineFuncs {
+		if have[bk] {
+			continue
+		}
+		pk, name := bk[:strings.Index(bk, ".")], bk[strings.LastIndex(bk, ".")+1:]
+		var cand *types.Func
+		n := 0
+		for fn := range r.Decls {
+			k := rawFuncKey(fn)
+			if fn.Name() == name && strings.HasPrefix(k, pk+".") && !baselineFuncs[k] {
+				cand = fn
+				n++
+			}
+		}
+		if n == 1 {
+			keyAlias[cand] = bk
+		}
+	}
 	if len(r.Pkgs) < 35 {
 		return nil, fmt.Errorf("only %d generator packages loaded from %s, expected >= 35 (main, derive, 33 plugins)", len(r.Pkgs), dir)
 	}
@@ -133,7 +156,18 @@ func (r *Repo) pos(p token.Pos) string {
 }
 
 // funcName gives a stable display/key name: pkg.(*T).M or pkg.F
+// keyAlias: functions that are a baseline function under another receiver (derive.newPackage made a method of *program):
+// they keep the baseline key, which is what the rules' tables are written in.
+var keyAlias = map[*types.Func]string{}
+
 func funcKey(fn *types.Func) string {
+	if k, ok := keyAlias[fn]; ok {
+		return k
+	}
+	return rawFuncKey(fn)
+}
+
+func rawFuncKey(fn *types.Func) string {
 	sig := fn.Type().(*types.Signature)
 	pk := ""
 	if fn.Pkg() != nil {
@@ -165,7 +199,25 @@ func (r *Repo) lookup(key string) *FuncInfo {
 			return fi
 		}
 	}
-	return nil
+	// the same function with another receiver (a function made a method, a method made a function, another receiver type):
+	// accepted when exactly one function of that package has the name
+	dot := strings.LastIndex(key, ".")
+	pk := strings.Index(key, ".")
+	if dot < 0 || pk < 0 {
+		return nil
+	}
+	pkgName, name := key[:pk], key[dot+1:]
+	var found *FuncInfo
+	for fn, fi := range r.Decls {
+		k := funcKey(fn)
+		if fn.Name() == name && strings.HasPrefix(k, pkgName+".") && !baselineFuncs[k] {
+			if found != nil {
+				return nil
+			}
+			found = fi
+		}
+	}
+	return found
 }
 
 // sortedFuncs returns all declared functions with bodies in deterministic order.
